@@ -328,8 +328,18 @@ def cli_part(chk):
                "benchmark_suites": {"S": {"gauge_adapter": "RebenchLog", "command": "%(benchmark)s %(invocation)s", "benchmarks": ["Ba"]}},
                "experiments": {"X": {"executions": [{"E": {"suites": ["S"]}}]}}, "runs": {"invocations": 2}}
         cli.write_yaml(os.path.join(W, "c.yaml"), raw)
-        env = cli.base_env(W, {"PATH": os.path.join(W, "bin") + ":/usr/local/bin:/usr/bin:/bin"})
-        for sig in (signal.SIGINT, signal.SIGTERM):
+        # a second configuration whose gauge adapter (a custom one, next to the configuration) takes its time parsing the
+        # output of the first invocation: the signal then arrives while NO benchmark process is being supervised
+        with open(os.path.join(W, "slow_log.py"), "w") as f:
+            f.write(SLOW_ADAPTER)
+        raw2 = json.loads(json.dumps(raw))
+        raw2["benchmark_suites"]["S"]["gauge_adapter"] = {"SlowLog": "slow_log.py"}
+        cli.write_yaml(os.path.join(W, "c2.yaml"), raw2)
+        env = cli.base_env(W, {"PATH": os.path.join(W, "bin") + ":/usr/local/bin:/usr/bin:/bin", "C20_PARSE_BLOCK": os.path.join(W, "parse")})
+        for sig, where in ((signal.SIGINT, "benchmark"), (signal.SIGTERM, "benchmark"), (signal.SIGINT, "parsing"), (signal.SIGTERM, "parsing")):
+            if where == "parsing":
+                parsing_interrupt(chk, W, env, sig)
+                continue
             for p_ in ("events.log", "starts.log", "c20.data"):
                 if os.path.exists(os.path.join(W, p_)):
                     os.remove(os.path.join(W, p_))
@@ -371,6 +381,58 @@ def cli_part(chk):
             chk.count("cli_interrupted_sessions")
     finally:
         shutil.rmtree(W, ignore_errors=True)
+
+
+SLOW_ADAPTER = '''import os, time
+from rebench.interop.rebench_log_adapter import RebenchLogAdapter
+
+
+class SlowLog(RebenchLogAdapter):
+    def parse_data(self, data, run_id, invocation):
+        res = super(SlowLog, self).parse_data(data, run_id, invocation)
+        flag = os.environ.get("C20_PARSE_BLOCK")
+        if flag and not os.path.exists(flag + ".done"):
+            open(flag + ".done", "w").write("x")
+            open(flag + ".ready", "w").write(str(os.getpid()))
+            t0 = time.time()
+            while time.time() - t0 < 20:
+                time.sleep(0.05)
+        return res
+'''
+
+
+def parsing_interrupt(chk, W, env, sig):
+    """SIGINT / SIGTERM between two invocations: while the output of the first one is being parsed"""
+    for p_ in ("events.log", "starts.log", "c20.data", "parse.ready", "parse.done"):
+        if os.path.exists(os.path.join(W, p_)):
+            os.remove(os.path.join(W, p_))
+    cli.set_script(W, {})
+    p = cli.popen_rebench(["c2.yaml"], W, env=env)
+    ready = os.path.join(W, "parse.ready")
+    t0 = time.time()
+    while not os.path.exists(ready) and time.time() - t0 < 40 and p.poll() is None:
+        time.sleep(0.02)
+    case = dict(signal=sig.name, report="nice-only", at="between two invocations (while the output of the first is parsed)")
+    if p.poll() is not None or not os.path.exists(ready):
+        so, se = p.communicate()
+        chk.obligation_broken("harness", "CLI session with fake sudo and a slow gauge adapter", "rc %s\n%s\n%s" % (p.returncode, so[-1500:], se[-800:]))
+        return
+    time.sleep(0.2)
+    os.kill(p.pid, sig)
+    try:
+        so, se = p.communicate(timeout=60)
+    except subprocess.TimeoutExpired:
+        p.kill()
+        so, se = p.communicate()
+    events = [l.rstrip("\n") for l in open(os.path.join(W, "events.log"))]
+    restores = [e for e in events if e.endswith(" restore")]
+    if p.returncode != 2 or cli.has_traceback(so, se):
+        chk.violation("C20 an interrupted session exits with the status of a user abort", case, 2, dict(rc=p.returncode, err=se[-400:]))
+    if len(restores) != 1 or not events[-1].endswith(" restore"):
+        chk.violation("C20 after SIGINT / SIGTERM the restore step is invoked exactly once, as the last step", case, "one restore, last",
+                      events[-5:])
+    chk.case(("cli-parsing", sig.name))
+    chk.count("cli_interrupted_between_invocations")
 
 
 TOKEN_NAMES = {0: "sudo", 2: "DENOISE", 3: "--without-nice", 4: "--without-shielding", 5: "--cset-path", 6: "--for-profiling", 8: "exec"}
